@@ -153,6 +153,21 @@ def validates (live : List Key) (f : Fetch) : Bool :=
   let ks := live.filter (fun k => k.sep && !k.revoke && k.other == 256)
   !ks.isEmpty && !f.all.isEmpty && coveredBy f ks
 
+/-- what a client gets for a name whose data is genuine (`secure`: it lies under
+a signed chain of delegations; otherwise in an unsigned zone). -/
+inductive Served | answered (ad : Bool) | servfail
+deriving DecidableEq, Repr
+
+/-- the consumer side of the live trust set — `Resolver.answer` / `authority` /
+`rootParentDS` with `hasTrustAnchors`: a client that sets CD gets the data
+unvalidated (AD clear); otherwise, with no trust anchor, EVERY lookup fails
+(whatever is cached: delegation cuts, DS sets), and with anchors genuine data
+is answered, authenticated iff its chain is signed. -/
+def serve (live : List Key) (cd secure : Bool) : Served :=
+  if cd then .answered false
+  else if live.isEmpty then .servfail
+  else .answered secure
+
 /-- `revocationIsSelfSignedWithWork`: the whole answer section verifies under
 the revoked key alone (zone = that key's owner name). -/
 def selfSigned (f : Fetch) (k : Key) : Bool := coveredBy f [k]
